@@ -144,3 +144,29 @@ Proof.
   repeat match goal with H : _ \/ _ |- _ => destruct H as [H|H]; try discriminate H end; try contradiction.
   inversion Ht. now left.
 Qed.
+
+(* ---------------------------------------------------------------- idpyoidc.client.cookie (relying-party helper)
+   Full statement — accepted => (load, timestamp) of an issued cookie — is FALSE of the faithful model and of
+   the code (known finding client-cookie-boundary-shift): the MAC input is load ‖ timestamp without framing.
+     Theorem C17_client_tamper_evident : ... client_parse btxt k w = Ok (load, ts) -> In (load, ts) G.      *)
+Theorem C17_client_roundtrip : forall btxt k load ts,
+  no_c bar load = true -> no_c bar ts = true -> client_parse btxt k (client_make k load ts) = Ok (load, ts).
+Proof. exact client_roundtrip. Qed.
+Print Assumptions C17_client_roundtrip.
+
+(* what does hold: the concatenation is authenticated *)
+Theorem C17_client_tamper_partial : forall btxt k (G : list (pystr * pystr)) w load ts,
+  wire_derivable (fun t => (exists g, In g G /\ t = client_mac k (fst g) (snd g)) \/ (exists k', t = Key k' /\ k' <> k)) w ->
+  client_parse btxt k w = Ok (load, ts) ->
+  exists g, In g G /\ (fst g ++ snd g)%list = (load ++ ts)%list.
+Proof. exact client_tamper_partial. Qed.
+Print Assumptions C17_client_tamper_partial.
+
+(* the witness replayed on the real code on every run: the only blob of the forged cookie is the genuine MAC *)
+Example C17_client_tamper_refuted :
+  let genuine := client_make 1 (PS "value::sso") (PS "1700000000") in
+  let forged := (chs (PS "value::sso1|700000000|") ++ [Bl (client_mac 1 (PS "value::sso") (PS "1700000000"))])%list in
+  client_parse nob 1 genuine = Ok (PS "value::sso", PS "1700000000")
+  /\ blobs forged = blobs genuine
+  /\ client_parse nob 1 forged = Ok (PS "value::sso1", PS "700000000").
+Proof. repeat split; vm_compute; reflexivity. Qed.
